@@ -1662,3 +1662,191 @@ func ruleTrimWindow(c *Ctx, rule string) {
 		c.bad(rule, key2, S.Pos(), "the returned start takes its new value where the running sum is reset, the returned end where a new maximum is recorded: a reset that follows the best window moves start past end (the results no longer describe the maximal window, or any window)")
 	}
 }
+
+// ---- reflectnew (C07): a new row is not made by reflect.New on a pointer type ----
+
+// ruleReflectNew: reflect.New(reflect.TypeOf(v)) for an interface value v
+// whose dynamic type is a pointer *T yields a **T, which has no methods;
+// asserting its Interface() to an interface with methods panics. Every
+// sequence type of the module implements its interfaces on the pointer, so
+// such a construction can never produce a usable row.
+func ruleReflectNew(c *Ctx, rule string, shorts ...string) {
+	n := 0
+	for _, short := range shorts {
+		sp := c.SPkgs[c.pkg(short).PkgPath]
+		for _, fn := range srcFuncs(sp) {
+			for _, b := range fn.Blocks {
+				for _, ins := range b.Instrs {
+					call, ok := ins.(*ssa.Call)
+					if !ok || !calleeIs(&call.Call, "reflect", "New") {
+						continue
+					}
+					n++
+					c.Funcs[funcName(fn)] = true
+					key := fmt.Sprintf("%s/reflect.New#%d", funcName(fn), n)
+					arg := call.Call.Args[0]
+					tcall, ok := arg.(*ssa.Call)
+					if !ok || !calleeIs(&tcall.Call, "reflect", "TypeOf") {
+						c.ok(rule, key, call.Pos(), "the type given to reflect.New is not the dynamic type of an interface value taken as is")
+						continue
+					}
+					src := tcall.Call.Args[0]
+					if mi, ok := src.(*ssa.MakeInterface); ok {
+						src = mi.X
+					}
+					if ci, ok := src.(*ssa.ChangeInterface); ok {
+						src = ci.X
+					}
+					iface, isIface := src.Type().Underlying().(*types.Interface)
+					if !isIface {
+						c.ok(rule, key, call.Pos(), "reflect.TypeOf is applied to a concrete value")
+						continue
+					}
+					// a module type that implements the interface only through its pointer
+					ptrImpl := ""
+					for _, p := range c.Prog.AllPackages() {
+						if !inModulePkg(p) {
+							continue
+						}
+						for _, m := range p.Members {
+							t, ok := m.(*ssa.Type)
+							if !ok {
+								continue
+							}
+							if _, isI := t.Type().Underlying().(*types.Interface); isI {
+								continue
+							}
+							if types.Implements(types.NewPointer(t.Type()), iface) && !types.Implements(t.Type(), iface) && iface.NumMethods() > 0 {
+								ptrImpl = t.Type().String()
+							}
+						}
+					}
+					if ptrImpl != "" {
+						c.bad(rule, key, call.Pos(), "reflect.New is given reflect.TypeOf of an interface value whose implementations are pointers (e.g. *"+ptrImpl+"): the result is a pointer to a pointer, which has no methods, so asserting it to the row interface panics — the operation fails for every alignment; use the element type or the row's own Clone/New")
+					} else {
+						c.ok(rule, key, call.Pos(), "no pointer-receiver implementation of the interface exists in the module")
+					}
+				}
+			}
+		}
+	}
+	if n == 0 {
+		c.triv(rule, "reflect.New", token.NoPos, "rows are never created through reflect.New")
+	}
+}
+
+// ---- nonneglen (C06): lengths handed to Make are non-negative for every feature ----
+
+// nonNegValue: v is structurally non-negative (a constant >= 0, a length, a
+// max with a non-negative argument, a sum of such, a loop-carried sum
+// starting at one, or a value clamped at zero).
+func nonNegValue(v ssa.Value, seen map[ssa.Value]bool, depth int) bool {
+	if depth > 8 {
+		return false
+	}
+	if k, ok := constIntVal(v); ok {
+		return k >= 0
+	}
+	if seen[v] {
+		return true // loop-carried: judged by its other edges
+	}
+	seen[v] = true
+	defer delete(seen, v)
+	switch x := v.(type) {
+	case *ssa.Call:
+		if b, ok := x.Call.Value.(*ssa.Builtin); ok && (b.Name() == "len" || b.Name() == "cap") {
+			return true
+		}
+		if sf := x.Call.StaticCallee(); sf != nil && sf.Name() == "max" && len(x.Call.Args) == 2 {
+			return nonNegValue(x.Call.Args[0], seen, depth+1) || nonNegValue(x.Call.Args[1], seen, depth+1)
+		}
+		if x.Call.IsInvoke() && x.Call.Method.Name() == "Len" {
+			return true
+		}
+	case *ssa.BinOp:
+		if x.Op == token.ADD {
+			return nonNegValue(x.X, seen, depth+1) && nonNegValue(x.Y, seen, depth+1)
+		}
+	case *ssa.Phi:
+		for i, e := range x.Edges {
+			if nonNegValue(e, seen, depth+1) {
+				continue
+			}
+			// the edge may carry e only where e >= 0 was established
+			okEdge := false
+			if i < len(x.Block().Preds) {
+				for _, bf := range factsOnEdge(x.Block().Preds[i], x.Block()) {
+					if bf.cond.X == e {
+						if k, ok := constIntVal(bf.cond.Y); ok {
+							op := effectiveOp(bf, true)
+							if (op == token.GEQ && k >= 0) || (op == token.GTR && k >= -1) {
+								okEdge = true
+							}
+						}
+					}
+				}
+			}
+			if !okEdge {
+				return false
+			}
+		}
+		return true
+	}
+	return false
+}
+
+func ruleNonNegLen(c *Ctx, rule string, names ...string) {
+	for _, name := range names {
+		fn := c.fn("seq/sequtils", name)
+		c.Funcs[funcName(fn)] = true
+		src := fn.Params[1].Name()
+		lenAtom := src + ".Slice().Len()"
+		lenRepl := linAtom(src + ".End()").add(linAtom(src+".Start()"), -1)
+		norm := func(l lin) lin { return l.subst(lenAtom, lenRepl) }
+		n := 0
+		for _, b := range fn.Blocks {
+			for _, ins := range b.Instrs {
+				call, ok := ins.(*ssa.Call)
+				if !ok || !call.Call.IsInvoke() || call.Call.Method.Name() != "Make" || len(call.Call.Args) != 2 {
+					continue
+				}
+				for ai, a := range call.Call.Args {
+					n++
+					key := fmt.Sprintf("sequtils.%s/Make#%d", name, n)
+					what := []string{"length", "capacity"}[ai]
+					if nonNegValue(a, map[ssa.Value]bool{}, 0) {
+						c.ok(rule, key, call.Pos(), "the "+what+" is non-negative by construction (a constant, a length, a max with zero, or a sum of such)")
+						continue
+					}
+					// from dominating comparisons (difference constraints)
+					var facts []lin
+					for _, bf := range branchesAt(b) {
+						if f, ok := strictForm(bf.cond, bf.edge, nil); ok {
+							facts = append(facts, norm(f))
+						}
+					}
+					// a direct guard on the value itself
+					guarded := false
+					for _, bf := range branchesAt(b) {
+						if bf.cond.X == a {
+							if k, ok := constIntVal(bf.cond.Y); ok {
+								op := effectiveOp(bf, true)
+								if (op == token.GEQ && k >= 0) || (op == token.GTR && k >= -1) {
+									guarded = true
+								}
+							}
+						}
+					}
+					if guarded || provable(norm(linOf(a, nil)).scale(-1), facts) {
+						c.ok(rule, key, call.Pos(), "the "+what+" "+norm(linOf(a, nil)).String()+" >= 0 follows from the dominating range checks")
+					} else {
+						c.bad(rule, key, call.Pos(), "nothing establishes that the "+what+" "+symName(a, nil)+" is non-negative: for a feature that lies outside the sequence (it clips to nothing) the clipped extent is negative and Make panics instead of contributing an empty segment")
+					}
+				}
+			}
+		}
+		if n == 0 {
+			c.und(rule, "sequtils."+name+"/Make", fn.Pos(), "no Make call found")
+		}
+	}
+}
